@@ -33,7 +33,7 @@ class C19(CheckBase):
     stubbed_components = ['results of faulted system calls (decided by simkernel)']
 
     def budget(self, tier):
-        return 1500 if tier == 'quick' else 40000
+        return 1000 if tier == 'quick' else 30000
 
     def time_cap(self, tier):
         return 600 if tier == 'quick' else 5400
